@@ -165,6 +165,10 @@ def bounded(ctx, b):
         # left-to-right mark, word joiner (emoji sequences, Persian, bidirectional text)
         CaptionSet({"en-US": CaptionList([Caption((2 * j + 1) * US, (2 * j + 2) * US, [T(t)]) for j, t in enumerate(
             ["family \U0001f468\u200d\U0001f469\u200d\U0001f467 emoji", "\u0645\u06cc\u200c\u062e\u0648\u0627\u0647\u0645", "co\u00adoperate", "abc \u200e(x)\u200f def", "no\u2060break"])])}),
+        # cue text whose lines begin with words the formats use as keywords (WebVTT comment blocks start with NOTE, regions with REGION)
+        CaptionSet({"en-US": CaptionList([Caption(US, 2 * US, [T("Please"), BR(), T("NOTE the time"), BR(), T("and the place.")]),
+                                          Caption(3 * US, 4 * US, [T("NOTE that the doors close at nine.")]), Caption(5 * US, 6 * US, [T("STYLE"), BR(), T("REGION two")]),
+                                          Caption(7 * US, 8 * US, [T("WEBVTT is a format")])])}),
         # every pair of metacharacters next to each other, inside a sentence (";>" , "&;", "<;", ...)
         CaptionSet({"en-US": CaptionList([Caption((2 * j + 1) * US, (2 * j + 2) * US, [T(f"He winked {x}{y} and left {y}{x}{y}")])
                                           for j, (x, y) in enumerate(itertools.product("&<>;#'-", repeat=2))])}),
